@@ -427,7 +427,8 @@ where
             scratch.available()
         );
 
-        let chunk_size: usize = bit_count.div_ceil(threads);
+        // an empty range prepares nothing and zeroes every bit; `chunks_mut` needs a non-zero size
+        let chunk_size: usize = bit_count.div_ceil(threads).max(1);
 
         let (mut scratches, _) = scratch.split_mut(threads, scratch_thread_size);
 
